@@ -610,8 +610,7 @@ def rule_R6(P, rep):
 
 
 def run(P, rep, tier):
-    if tier == "thorough":
-        common.rule_X4(P, rep)
+    common.rule_X4(P, rep)
     common.run_shared(P, rep)
     rule_R1_R5(P, rep)
     rule_R2(P, rep)
